@@ -20,7 +20,7 @@ def run(ctx):
     import pyrepseq.plotting as pl
     from pyrepseq.metric.tcr_metric.tcr_metric import is_in_standard_format
     ctx.rule = ("Helpers.tla (label_axes as a walk over the axes with cyclic labels; convert_tuple / ensure_numpy / default-metric and "
-                "standard-format decision tables; seqlogos_vj glyph stacks; HandlerTupleOffset shifts) is model-checked (LabelsCycle, "
+                "standard-format decision tables; seqlogos_vj glyph stacks; HandlerTupleOffset shifts; clustermap_split cell layout) is model-checked (LabelsCycle, SplitTriangles, "
                 "GlyphsPartition, LegendCentred, MetricTable) and every terminal behaviour is executed on the real helpers.")
     res = ctx.mc("MCHelpers", "MCHelpers.cfg", workers=4)
     drift = []
@@ -117,6 +117,28 @@ def run(ctx):
                 other = [(yd - yd0) if horizontal else (xd - xd0) for xd, yd in rec]
                 if len(got) != n or any(abs(g - w) > 1e-9 for g, w in zip(got, want)) or any(abs(o) > 1e-12 for o in other):
                     note("HandlerTupleOffset/shift", f"{n} handles horizontal={horizontal}: shifts {got} want {want}")
+            elif k == "split":
+                n, ys, xs = inp["n"], [v - 1 for v in inp["rows"]], [v - 1 for v in inp["cols"]]
+
+                def caterpillar(order):
+                    # a linkage whose dendrogram lists the leaves in exactly this order (no distance / count sorting in seaborn)
+                    Z, left = [], order[0]
+                    for step_, leaf in enumerate(order[1:]):
+                        Z.append([float(left), float(leaf), float(step_ + 1), float(step_ + 2)])
+                        left = n + step_
+                    return np.array(Z)
+                lower = pd.DataFrame([[10 * (r + 1) + (c + 1) for c in range(n)] for r in range(n)])
+                # (tables with the default 0..n-1 labels, as similarity_clustermap builds them; with other labels the function raises
+                #  IndexError inside seaborn's mask alignment - observed, outside every listed property, noted in DESIGN.md)
+                upper = pd.DataFrame([[100 + 10 * (r + 1) + (c + 1) for c in range(n)] for r in range(n)])
+                cg = pl.clustermap_split(lower, upper, row_linkage=caterpillar(ys), col_linkage=caterpillar(xs), figsize=(2.5, 2.5))
+                got_rows, got_cols = list(cg.dendrogram_row.reordered_ind), list(cg.dendrogram_col.reordered_ind)
+                got = np.asarray(cg.data2d).tolist()
+                plt.close("all")
+                if got_rows != ys or got_cols != xs:
+                    note("clustermap_split/order", f"dendrogram order rows {got_rows} cols {got_cols} want {ys} {xs}")
+                elif got != out["cells"]:
+                    note("clustermap_split/cells", f"clustermap_split rows {ys} cols {xs}: data2d {got} want {out['cells']}")
         except Exception as e:      # noqa: BLE001
             note(f"{k}/raised", f"{k} {inp} raised {type(e).__name__}: {e}")
     ctx.exhaustive = True
@@ -128,7 +150,7 @@ def run(ctx):
     os.makedirs(d, exist_ok=True)
     with open(os.path.join(d, "X01.json"), "w") as f:
         json.dump(dict(id="X01", spec="Helpers.tla", states=ctx.states, behaviours_replayed=ctx.traces, drift=ctx.extra["drift"], drift_count=len(drift),
-                       invariants=["LabelsCycle", "GlyphsPartition", "LegendCentred", "MetricTable"], wall_s=round(time.time() - ctx.t0, 1)), f, indent=1)
+                       invariants=["LabelsCycle", "GlyphsPartition", "LegendCentred", "MetricTable", "SplitTriangles"], wall_s=round(time.time() - ctx.t0, 1)), f, indent=1)
 
 
 def replay(doc):
